@@ -102,6 +102,9 @@ func Solve(o *Obligation, dir string, timeoutSec int) *Result {
 }
 
 func solveGoal(o *Obligation, goal Term, suffix, dir string, timeoutSec int) *Result {
+	if o.Raw != "" && timeoutSec < 300 {
+		timeoutSec = 300 // closed bit-vector / floating-point side condition: cvc5 needs about a minute, more under load
+	}
 	if o.MustFail && timeoutSec > 2 {
 		timeoutSec = 2 // reachability canary: "false" must not be provable; no need to wait for a model
 	}
